@@ -35,21 +35,39 @@ HasRaw(F, path) == RawIdx(F, path) # {}
 RawB(F, path) == LET r == F.raw[MinOf(RawIdx(F, path))] IN IF "b" \in DOMAIN r THEN r.b ELSE r.pre
 
 (* ---- ISO/IEC 14496-12 ---- *)
-MvhdFields(timescale) == <<
-    Fld("version-flags", 0, 4, Zeros(4)), Fld("timescale", 12, 4, BE32(timescale)),
-    Fld("rate", 20, 4, << 0,1,0,0 >>), Fld("volume", 24, 2, << 1,0 >>), Fld("reserved", 26, 10, Zeros(10)),
-    Fld("matrix", 36, 36, IdentityMatrix), Fld("pre_defined", 72, 24, Zeros(24)) >>
+(* Header boxes exist in version 0 (32-bit times) and version 1 (64-bit times); both are conforming. *)
+(* The tables take the version found in the first payload byte; sizes: mvhd 100 / 112, tkhd 84 / 96,  *)
+(* mdhd 24 / 36.                                                                                     *)
+Ver(b) == IF Len(b) >= 1 /\ b[1] = 1 THEN 1 ELSE 0
+MvhdSize(b) == IF Ver(b) = 1 THEN 112 ELSE 100
+TkhdSize(b) == IF Ver(b) = 1 THEN 96 ELSE 84
+MdhdSize(b) == IF Ver(b) = 1 THEN 36 ELSE 24
+MvhdNextIdOff(b) == IF Ver(b) = 1 THEN 108 ELSE 96
 
-TkhdFields(id, w, h, audio) == <<
-    Fld("version", 0, 1, << 0 >>), Fld("track_ID", 12, 4, BE32(id)), Fld("reserved-a", 16, 4, Zeros(4)),
-    Fld("reserved-b", 24, 8, Zeros(8)), Fld("reserved-c", 38, 2, Zeros(2)),
-    Fld("volume", 36, 2, IF audio THEN << 1, 0 >> ELSE << 0, 0 >>),
-    Fld("matrix", 40, 36, IdentityMatrix),
-    Fld("width", 76, 4, IF audio THEN Zeros(4) ELSE BE16(w) \o << 0, 0 >>),
-    Fld("height", 80, 4, IF audio THEN Zeros(4) ELSE BE16(h) \o << 0, 0 >>) >>
+MvhdFieldsV(b, timescale) ==
+    LET x == IF Ver(b) = 1 THEN 12 ELSE 0 IN <<
+    Fld("version", 0, 1, << Ver(b) >>), Fld("flags", 1, 3, Zeros(3)),
+    Fld("timescale", 12 + (IF Ver(b) = 1 THEN 8 ELSE 0), 4, BE32(timescale)),
+    Fld("rate", 20 + x, 4, << 0,1,0,0 >>), Fld("volume", 24 + x, 2, << 1,0 >>), Fld("reserved", 26 + x, 10, Zeros(10)),
+    Fld("matrix", 36 + x, 36, IdentityMatrix), Fld("pre_defined", 72 + x, 24, Zeros(24)) >>
+MvhdFields(timescale) == MvhdFieldsV(<< 0 >>, timescale)
 
-MdhdFields(timescale) == <<
-    Fld("version-flags", 0, 4, Zeros(4)), Fld("timescale", 12, 4, BE32(timescale)), Fld("pre_defined", 22, 2, Zeros(2)) >>
+TkhdFieldsV(b, id, w, h, audio) ==
+    LET x == IF Ver(b) = 1 THEN 12 ELSE 0
+        idoff == IF Ver(b) = 1 THEN 20 ELSE 12 IN <<
+    Fld("version", 0, 1, << Ver(b) >>), Fld("track_ID", idoff, 4, BE32(id)), Fld("reserved-a", idoff + 4, 4, Zeros(4)),
+    Fld("reserved-b", 24 + x, 8, Zeros(8)), Fld("reserved-c", 38 + x, 2, Zeros(2)),
+    Fld("volume", 36 + x, 2, IF audio THEN << 1, 0 >> ELSE << 0, 0 >>),
+    Fld("matrix", 40 + x, 36, IdentityMatrix),
+    Fld("width", 76 + x, 4, IF audio THEN Zeros(4) ELSE BE16(w) \o << 0, 0 >>),
+    Fld("height", 80 + x, 4, IF audio THEN Zeros(4) ELSE BE16(h) \o << 0, 0 >>) >>
+TkhdFields(id, w, h, audio) == TkhdFieldsV(<< 0 >>, id, w, h, audio)
+
+MdhdFieldsV(b, timescale) == <<
+    Fld("version", 0, 1, << Ver(b) >>), Fld("flags", 1, 3, Zeros(3)),
+    Fld("timescale", IF Ver(b) = 1 THEN 20 ELSE 12, 4, BE32(timescale)),
+    Fld("pre_defined", IF Ver(b) = 1 THEN 34 ELSE 22, 2, Zeros(2)) >>
+MdhdFields(timescale) == MdhdFieldsV(<< 0 >>, timescale)
 
 HdlrFields(handler) == <<
     Fld("version-flags", 0, 4, Zeros(4)), Fld("pre_defined", 4, 4, Zeros(4)), Fld("handler_type", 8, 4, handler),
@@ -249,15 +267,15 @@ ProgressiveRawSigs(F, cfg, firstKey, hasVideo) ==
         aent == IF cfg.ac = "opus" THEN "Opus" ELSE "mp4a"
         ids == { F.tracks[t].tid : t \in 1..Len(F.tracks) }
     IN
-         NeedRaw(F, "moov.mvhd", "progressive/mvhd", LAMBDA b : FieldTableSigs("C19", "progressive/mvhd", b, 100, MvhdFields(1000))
-                \cup (IF Len(b) = 100 /\ ~FitsU32(b, 97) THEN {} ELSE
-                      IF Len(b) = 100 /\ \E i \in ids : U32(b, 97) <= i THEN {LSig("C19", "Recovered", "progressive/mvhd", "next_track_ID")} ELSE {}))
+         NeedRaw(F, "moov.mvhd", "progressive/mvhd", LAMBDA b : FieldTableSigs("C19", "progressive/mvhd", b, MvhdSize(b), MvhdFieldsV(b, 1000))
+                \cup (IF Len(b) # MvhdSize(b) \/ ~FitsU32(b, MvhdNextIdOff(b) + 1) THEN {} ELSE
+                      IF \E i \in ids : U32(b, MvhdNextIdOff(b) + 1) <= i THEN {LSig("C19", "Recovered", "progressive/mvhd", "next_track_ID")} ELSE {}))
     \cup (IF F.mvts # 1000 THEN {LSig("C19", "Recovered", "progressive/mvhd", "movie-timescale")} ELSE {})
     \cup (IF 0 \in ids \/ Cardinality(ids) # Len(F.tracks) THEN {LSig("C19", "Recovered", "progressive/tkhd", "track-ids")} ELSE {})
     \cup NeedRaw(F, vt \o ".tkhd", "progressive/tkhd", LAMBDA b :
-              FieldTableSigs("C19", "progressive/tkhd", b, 84, TkhdFields(1, cfg.w, cfg.h, FALSE))
+              FieldTableSigs("C19", "progressive/tkhd", b, TkhdSize(b), TkhdFieldsV(b, 1, cfg.w, cfg.h, FALSE))
               \cup (IF ~TkhdEnabled(b) THEN {LSig("C19", "Recovered", "progressive/tkhd", "track-not-enabled")} ELSE {}))
-    \cup NeedRaw(F, vt \o ".mdia.mdhd", "progressive/mdhd", LAMBDA b : FieldTableSigs("C19", "progressive/mdhd", b, 24, MdhdFields(90000)))
+    \cup NeedRaw(F, vt \o ".mdia.mdhd", "progressive/mdhd", LAMBDA b : FieldTableSigs("C19", "progressive/mdhd", b, MdhdSize(b), MdhdFieldsV(b, 90000)))
     \cup NeedRaw(F, vt \o ".mdia.hdlr", "progressive/hdlr", LAMBDA b : FieldTableSigs("C19", "progressive/hdlr", b, -1, HdlrFields(VIDE))
               \cup (IF Len(b) < 25 \/ b[Len(b)] # 0 THEN {LSig("C19", "BoxLayout", "progressive/hdlr", "name")} ELSE {}))
     \cup NeedRaw(F, vt \o ".mdia.minf.vmhd", "progressive/vmhd", LAMBDA b : FieldTableSigs("C19", "progressive/vmhd", b, 12, << Fld("version", 0, 1, << 0 >>) >>))
@@ -272,9 +290,9 @@ ProgressiveRawSigs(F, cfg, firstKey, hasVideo) ==
           ELSE {})
     \cup (IF hasA THEN
              NeedRaw(F, at \o ".tkhd", "progressive/tkhd-audio", LAMBDA b :
-                  FieldTableSigs("C19", "progressive/tkhd-audio", b, 84, TkhdFields(TrackIdOf(F, 2), 0, 0, TRUE))
+                  FieldTableSigs("C19", "progressive/tkhd-audio", b, TkhdSize(b), TkhdFieldsV(b, TrackIdOf(F, 2), 0, 0, TRUE))
                   \cup (IF ~TkhdEnabled(b) THEN {LSig("C19", "Recovered", "progressive/tkhd-audio", "track-not-enabled")} ELSE {}))
-        \cup NeedRaw(F, at \o ".mdia.mdhd", "progressive/mdhd-audio", LAMBDA b : FieldTableSigs("C19", "progressive/mdhd-audio", b, 24, MdhdFields(90000)))
+        \cup NeedRaw(F, at \o ".mdia.mdhd", "progressive/mdhd-audio", LAMBDA b : FieldTableSigs("C19", "progressive/mdhd-audio", b, MdhdSize(b), MdhdFieldsV(b, 90000)))
         \cup NeedRaw(F, at \o ".mdia.hdlr", "progressive/hdlr-audio", LAMBDA b : FieldTableSigs("C19", "progressive/hdlr-audio", b, -1, HdlrFields(SOUN)))
         \cup NeedRaw(F, at \o ".mdia.minf.smhd", "progressive/smhd", LAMBDA b : FieldTableSigs("C19", "progressive/smhd", b, 8, << Fld("version-flags", 0, 4, Zeros(4)), Fld("reserved", 6, 2, Zeros(2)) >>))
         \cup (IF F.tracks[2].entry # aent THEN {LSig("C07", "SampleEntry", "progressive/audio", ToString(<< "type", F.tracks[2].entry >>))} ELSE
@@ -340,12 +358,12 @@ RawSigsInit(F, cfg) ==
              ent == EntryOf(cfg.vc)
              vstsd == vt \o ".mdia.minf.stbl.stsd"
          IN
-         NeedRaw(F, "moov.mvhd", "init/mvhd", LAMBDA b : FieldTableSigs("C19", "init/mvhd", b, 100, MvhdFields(cfg.timescale))
-                \cup (IF Len(b) = 100 /\ FitsU32(b, 97) /\ U32(b, 97) <= 1 THEN {LSig("C19", "Recovered", "init/mvhd", "next_track_ID")} ELSE {}))
+         NeedRaw(F, "moov.mvhd", "init/mvhd", LAMBDA b : FieldTableSigs("C19", "init/mvhd", b, MvhdSize(b), MvhdFieldsV(b, cfg.timescale))
+                \cup (IF Len(b) = MvhdSize(b) /\ FitsU32(b, MvhdNextIdOff(b) + 1) /\ U32(b, MvhdNextIdOff(b) + 1) <= 1 THEN {LSig("C19", "Recovered", "init/mvhd", "next_track_ID")} ELSE {}))
     \cup NeedRaw(F, vt \o ".tkhd", "init/tkhd", LAMBDA b :
-              FieldTableSigs("C19", "init/tkhd", b, 84, TkhdFields(1, cfg.w, cfg.h, FALSE))
+              FieldTableSigs("C19", "init/tkhd", b, TkhdSize(b), TkhdFieldsV(b, 1, cfg.w, cfg.h, FALSE))
               \cup (IF ~TkhdEnabled(b) THEN {LSig("C19", "Recovered", "init/tkhd", "track-not-enabled")} ELSE {}))
-    \cup NeedRaw(F, vt \o ".mdia.mdhd", "init/mdhd", LAMBDA b : FieldTableSigs("C19", "init/mdhd", b, 24, MdhdFields(cfg.timescale)))
+    \cup NeedRaw(F, vt \o ".mdia.mdhd", "init/mdhd", LAMBDA b : FieldTableSigs("C19", "init/mdhd", b, MdhdSize(b), MdhdFieldsV(b, cfg.timescale)))
     \cup NeedRaw(F, vt \o ".mdia.hdlr", "init/hdlr", LAMBDA b : FieldTableSigs("C19", "init/hdlr", b, -1, HdlrFields(VIDE))
               \cup (IF Len(b) < 25 \/ b[Len(b)] # 0 THEN {LSig("C19", "BoxLayout", "init/hdlr", "name")} ELSE {}))
     \cup NeedRaw(F, vt \o ".mdia.minf.vmhd", "init/vmhd", LAMBDA b : FieldTableSigs("C19", "init/vmhd", b, 12, << Fld("version", 0, 1, << 0 >>) >>))
